@@ -51,6 +51,7 @@ type Sim struct {
 	Prov    *provisioning.Provisioner
 	Types   map[string]*cloudprovider.InstanceType
 	podKey  map[types.UID]string
+	ovl     *frameOverlay // C18 (x_frame.go): NodeOverlay wiring, nil without overlays
 }
 
 func podKey(p *corev1.Pod) string { return p.Namespace + "/" + p.Name }
@@ -75,6 +76,7 @@ func Materialise(s *Scenario) (*Sim, error) {
 			o.MinValuesPolicy = options.MinValuesPolicyBestEffort
 		}
 		o.IgnoreDRARequests = s.DRA == nil
+		o.FeatureGates.NodeOverlay = len(s.Overlays) > 0 // C18
 	}), "provisioner")
 	// catalog
 	var all []*cloudprovider.InstanceType
@@ -171,10 +173,12 @@ func Materialise(s *Scenario) (*Sim, error) {
 		}
 	}
 	// cluster state through the real informer controllers
-	sim.Cluster = state.NewCluster(w.Clock, w.Client, w.Prov)
-	cc := cost.NewClusterCost(sim.Ctx, w.Prov, w.Client)
-	npc := informer.NewNodePoolController(w.Client, w.Prov, sim.Cluster, cc)
-	ncc := informer.NewNodeClaimController(w.Client, w.Prov, sim.Cluster, cc)
+	cp := frameProvider(sim) // C18: the harness provider, or behind the NodeOverlay decorator (x_frame.go)
+	sim.Cluster = state.NewCluster(w.Clock, w.Client, cp)
+	frameOverlayInit(sim) // C18: the instance type store learns the pools (no overlay exists yet)
+	cc := cost.NewClusterCost(sim.Ctx, cp, w.Client)
+	npc := informer.NewNodePoolController(w.Client, cp, sim.Cluster, cc)
+	ncc := informer.NewNodeClaimController(w.Client, cp, sim.Cluster, cc)
 	nc := informer.NewNodeController(w.Client, sim.Cluster)
 	pc := informer.NewPodController(w.Client, sim.Cluster)
 	dc := informer.NewDaemonSetController(w.Client, sim.Cluster)
@@ -218,7 +222,7 @@ func Materialise(s *Scenario) (*Sim, error) {
 	if s.DRA != nil {
 		dac.Hydrate(sim.Ctx) // AllocatedDevices blocks until the controller has listed the ResourceClaims once
 	}
-	sim.Prov = provisioning.NewProvisioner(w.Client, w.Rec, w.Prov, sim.Cluster, w.Clock, dac, virtualpods.NewVirtualPodCache(w.Client))
+	sim.Prov = provisioning.NewProvisioner(w.Client, w.Rec, cp, sim.Cluster, w.Clock, dac, virtualpods.NewVirtualPodCache(w.Client))
 	return sim, nil
 }
 
@@ -582,6 +586,7 @@ func RunScenario(s *Scenario, tw *trace.Writer) (sum trace.M, err error) {
 		emit(trace.M{"e": "End", "status": "setup-error", "msg": trunc(err.Error(), 200)})
 		return trace.M{"name": s.Name, "status": "setup-error"}, nil
 	}
+	frameOverlaysAppear(sim) // C18: the NodeOverlays appear now; their first application falls into the bracketed pass
 	emit(sim.HydrateEvent())
 	sim.W.Sink = func(ev trace.M) { emit(ev) }
 	sim.W.ResetSeq()
